@@ -30,6 +30,20 @@ def run(res, f, tier):
                             "result": p["ret"]})
     import rewrite
     rw_cov = rewrite.apply(res, f, "C05")
+    # "a sub-expression that is reached invokes its user function": below the evaluator the call goes through the
+    # function table, which may skip the invocation only for a function that declares itself cacheable.  Those rules
+    # are C11's; the verdict on them is imported.
+    import c11
+    from framework import Result
+    r11 = Result("C11", "other")
+    try:
+        c11.run(r11, f, tier)
+        skipped = [v for v in r11.violations if v["key"] in ("C11|bypass", "C11|asks-cacheable", "C11|right-function")]
+        for v in skipped[:1]:
+            res.violation("C05|call-invoked", "a reached call of a user function is not always an invocation of that function: %s" % [x["what"][:120] for x in skipped],
+                          {"c11_findings": [x["key"] for x in skipped]})
+    except Inconclusive as e:
+        res.floor_failures.append("imported invocation verdict (C11) unavailable: %s" % e)
     res.coverage = {
         "tree_rewrites": rw_cov,
         "explanation": "All acyclic paths of the recursive evaluator's coroutine body (MIR before the state-machine transform; "
